@@ -88,6 +88,9 @@ CONTEXTS = {
     "nonlocal-target": "v = None\ndef g():\n    nonlocal v\n    v = {C}\ng()\nreturn v",
     "return-in-loop": "for i in tr('it', [0, 1]):\n    if i:\n        return {C}\nreturn None",
     "global-name-shadow": "wrap2 = wrap\nreturn wrap2({C}, q={C})",
+    # names the rewriting itself uses, as the method's own local variables
+    "local-named-type": "type = tr('ty', 5)\nreturn {C}, type",
+    "locals-named-like-helpers": "isinstance = tr('i', 1)\nlen2 = len\nmap = tr('m', 2)\nreturn {C}, isinstance, map",
     # a call that FOLLOWS a completed inner comprehension inside a region where temporaries are forbidden
     "listcomp-iter-after-inner": "return [i for i in zip([q for q in tr('in', [0])], {C})]",
     "listcomp-iter-around-inner": "return [i for i in ({C}, sum(q for q in tr('in', [0])), {C})]",
@@ -506,7 +509,7 @@ def main(tier):
              "f-string, subscript / attribute base, walrus, try/finally, try/except around a failing call, generator, for, with, "
              "decorator, raise after the call, while / assert / augmented and annotated assignment, starred and ** displays, slice, comparison chain, "
              "match subject, yield from, except / else / with bodies, method of a nested class, doubly nested def, lambda in a comprehension, "
-             "nested comprehension, starred assignment, nonlocal target, class body, a call following a completed inner comprehension inside a comprehension iterable / second for clause / class body; thorough: and depth 2 = each of 12 expression contexts around the call inside every statement context, for recurse / call_next on three kinds) x 14 call forms (positional, two, keyword, starred, second positional by name directly / through ** / with * and **, "
+             "nested comprehension, starred assignment, nonlocal target, class body, locals named type / isinstance / map, a call following a completed inner comprehension inside a comprehension iterable / second for clause / class body; thorough: and depth 2 = each of 12 expression contexts around the call inside every statement context, for recurse / call_next on three kinds) x 14 call forms (positional, two, keyword, starred, second positional by name directly / through ** / with * and **, "
              "double-starred, nested in the first / a later / a keyword argument / both) x 4 special names (recurse, call_next, the function's own name, a renamed import) x 7 "
              "function kinds (module-level, a function whose first position is strictly positional (named differently by every method), closure instantiated twice, positional defaults, keyword-only defaults, method with "
              "self, lambda / generator expression in the signature); each built twice from one source text; compared: acceptance, result, exception, order and multiplicity of "
